@@ -119,3 +119,20 @@ Definition fmodel (c : fcase) : dobs :=
   let d := fc_case c in dobs_of (class_result_future (tbl_match (dc_tbl d)) (dc_env d) [(fc_len c, dc_decl d)]).
 Definition funmodelled (c : fcase) : bool := match fmodel c with DRaise Unmodelled => true | _ => false end.
 Definition fmismatch (c : fcase) : bool := negb (funmodelled c) && negb (dobs_eqb (fmodel c) (dc_obs (fc_case c))).
+
+(* ---------------------------------------------------------------- spec clause of C13_optional_marking on OBSERVED behaviour *)
+(* For `a: typing.Union[...]` inside the theorem's domain (typing keeps the Union as written, every member is None or
+   denotes a field) and without default, the implementation must have produced a field that is required iff it is
+   neither listed in _optional nor has a member denoting NoneField — whatever the model's own marks_optional computes. *)
+Definition opt_spec_applies (c : dcase) : bool :=
+  let d := dc_decl c in
+  d_annot d &&
+  match d_ty d with TUnion l => union_written l && forallb member_ok l | _ => false end &&
+  match d_eq d, d_kw d with None, None => true | _, _ => false end.
+
+Definition opt_spec_fails (c : dcase) : bool :=
+  opt_spec_applies c &&
+  match d_ty (dc_decl c), dc_obs c with
+  | TUnion l, DField _ _ req => negb (Bool.eqb req (negb (d_opt (dc_decl c) || existsb member_none l)))
+  | _, _ => true
+  end.
